@@ -19,7 +19,8 @@ import (
 // once with trace logging off and once with trace logging on, each time on a provider fresh from its
 // constructor. Read by read the two outcomes must be the same: accepted with the same value, refused
 // with 400, refused otherwise, or a panic. Error texts are not compared. Reads whose Content-Type
-// names two registered keys with different readers (class F62: a Go map iteration decides) are left out.
+// names two registered keys with different readers (the class of F62, repaired by 8b400b4: the key that
+// occurs first decides, no longer a Go map iteration) are compared like all others, and counted.
 func CheckTracePurity(run *report.Run, n int) error {
 	defer Restore()
 	defer restful.EnableTracing(false)
@@ -47,8 +48,7 @@ func CheckTracePurity(run *report.Run, n int) error {
 			run.Evaluations++
 			run.TracesValidated++
 			if len(accessors(h.Cfg, rd.CT)) > 1 {
-				run.Count("entity:traced-reads:skipped(F62 class: answer depends on map iteration order)")
-				continue
+				run.Count("entity:traced-reads:in-the-class-of-the-repaired-F62(compared like all others)")
 			}
 			run.Count("entity:traced-reads:" + map[bool]string{true: "intact", false: "broken"}[rd.Status == "good"] + ":" + map[string]string{"": "identity", "gzip": "gzip", "deflate": "deflate"}[rd.Coding])
 			if off[k].Class == "ok" {
